@@ -27,15 +27,21 @@ pub broadcast proof fn lemma_shr64(u: u128)
 }
 
 pub broadcast proof fn lemma_lo64(u: u128)
-    ensures #[trigger] (u & 0xffffffffffffffff) == (u as int) % B64()
+    ensures #[trigger] (u & 0xffffffffffffffff) == (u as int) % B64(),
+            (u & 0xffffffffffffffff) < 0x1_0000_0000_0000_0000u128,
 {
     assert((u & 0xffffffffffffffff) == u % 0x1_0000_0000_0000_0000u128) by (bit_vector);
+    assert((u & 0xffffffffffffffff) < 0x1_0000_0000_0000_0000u128) by (bit_vector);
 }
 
 pub broadcast proof fn lemma_shl64(u: u128)
     requires u < 0x1_0000_0000_0000_0000u128
-    ensures #[trigger] (u << 64) == (u as int) * B64()
+    ensures #[trigger] (u << 64) == (u as int) * B64(),
+            // stated as plain bounds as well (range facts keep the overflow checks of `lo + (x << 64)` linear)
+            (u << 64) <= 0xffffffffffffffff_0000000000000000u128,
+            forall|w: u128| w < 0x1_0000_0000_0000_0000u128 ==> #[trigger] (w + (u << 64)) <= u128::MAX,
 {
+    assert(u < 0x1_0000_0000_0000_0000u128 ==> (u << 64) <= 0xffffffffffffffff_0000000000000000u128) by (bit_vector);
     assert(u < 0x1_0000_0000_0000_0000u128 ==> (u << 64) == mul(u, 0x1_0000_0000_0000_0000u128)) by (bit_vector);
     assert((u as int) * B64() < B128()) by (nonlinear_arith) requires 0 <= u < B64();
 }
